@@ -208,7 +208,9 @@ def generate(seed, tier):
         case['loader'] = r.choice(['SafeLoader', 'FullLoader', 'Loader', 'BaseLoader', 'UnsafeLoader']) if backend == 'py' \
             else r.choice(['CSafeLoader', 'CFullLoader', 'CLoader', 'CBaseLoader', 'CUnsafeLoader'])
         after = r.randint(0, nd + 1) if api in ('load_all', 'compose_all') else r.choice([r.randint(0, 6), r.randint(0, 60)])
-        case['abandon'] = {'after': after, 'how': r.choice(['close', 'throw', 'del', 'del', 'exhaust'])}
+        case['abandon'] = {'after': after, 'how': r.choice(['close', 'throw', 'del', 'del', 'exhaust', 'stream_error', 'stream_error'])}
+        if case['abandon']['how'] == 'stream_error':
+            case['abandon']['read'] = r.choice([0, 1, 2, 2, 3, 3, 4, 5, 8, 13, 30])
     case['parts'] = parts
     n = sum(len(p['text']) for p in parts) * (2 if form == 'utf16le' else 1)
     x = rs.random()
@@ -413,14 +415,17 @@ def execute(case):
         was = gc.isenabled()
         gc.disable()
         try:
-            stream = SimReader(data, case['sizes'], case['then'], log=log)
+            fault = None
+            if ab['how'] == 'stream_error':
+                fault = (ab['read'], lambda: OSError(5, 'simulated I/O error'))
+            stream = SimReader(data, case['sizes'], case['then'], log=log, fault=fault)
             ref = weakref.ref(stream)
             gen = getattr(yaml, api)(stream, Loader=L)
             del stream
             n = 0
             err = None
             try:
-                if ab['how'] == 'exhaust':
+                if ab['how'] in ('exhaust', 'stream_error'):
                     for _ in gen:
                         n += 1
                 else:
@@ -429,7 +434,7 @@ def execute(case):
                         n += 1
             except StopIteration:
                 pass
-            except yaml.YAMLError as exc:
+            except (yaml.YAMLError, OSError) as exc:
                 err = type(exc).__name__
                 del exc
             if ab['how'] == 'close':
@@ -445,12 +450,12 @@ def execute(case):
             alive = ref() is not None
             logparts.append([n, err, alive])
             out['faults']['abandon:' + ab['how']] = 1
-            if alive and err is None:
+            if err == 'OSError':
+                out['faults']['stream-exception-ends-iteration'] = 1
+            if alive:
                 referrers = [type(x).__name__ for x in gc.get_referrers(ref())][:6]
                 out['violations'].append({'class': 'stream-not-released-on-abandon', 'detail': {
-                    'how': ab['how'], 'items_consumed': n, 'loader': case['loader'], 'referrers': referrers}})
-            elif alive:
-                out['extra']['release_not_checked_after_stream_error'] = 1
+                    'how': ab['how'], 'items_consumed': n, 'loader': case['loader'], 'ended_with': err, 'referrers': referrers}})
             sig_extra = [ab['how'], n]
             out['probes']['abandoned_mid_stream'] = 1 if (n and ab['how'] != 'exhaust') else 0
         finally:
